@@ -47,7 +47,7 @@ def _with_delegates(ctx, cb, depth=2):
 
 def is_l21_norm(ctx, cb):
     """Role: matrix -> scalar helper that takes square roots (formula decided by the kernel engine)."""
-    if cb.arg_count != 1:
+    if cb.arg_count != 1 or (ctx.facts.ty(cb.local_ty(0)) or {}).get("k") != "param":
         return False
     return any(calls_named(b, "MomTropFloat", ("sqrt",)) for b in _with_delegates(ctx, cb))
 
@@ -57,7 +57,10 @@ def is_identity_ctor(ctx, cb):
     has_one = any(calls_named(b, "MomTropFloat", ("one",)) for b in bs)
     writes = any(calls_named(b, "IndexMut", ("index_mut",)) for b in bs)
     rty = cb.local_ty(0)
-    return has_one and writes and "SquareMatrix" in rty
+    # an identity constructor only writes: a routine that also READS matrix entries (an inversion, a product) is something else
+    reads = any(calls_named(b, "Index", ("index",)) and any("SquareMatrix" in ((t.get("callee") or {}).get("self_ty") or "")
+                                                              for _bi, t in calls_named(b, "Index", ("index",))) for b in bs)
+    return has_one and writes and not reads and "SquareMatrix" in rty
 
 
 def result_edges(term):
